@@ -14,17 +14,29 @@ func (r *joinRun) goSpec() map[string]Obj {
 	res := map[string]Obj{}
 	if r.merge {
 		keys := map[string]bool{}
-		for _, m := range r.state {
+		for i, m := range r.state {
+			if r.nested && !r.member[i] {
+				continue
+			}
 			for k := range m {
 				keys[k] = true
 			}
 		}
 		for k := range keys {
 			var found []Obj
-			for _, m := range r.state {
+			for i, m := range r.state {
+				if r.nested && !r.member[i] {
+					continue
+				}
 				if o, f := m[k]; f {
 					found = append(found, o)
 				}
+			}
+			if r.nested {
+				if mo := mergeSortedSpec(found); mo != nil {
+					res[k] = *mo
+				}
+				continue
 			}
 			if found[0].Val == "v3" {
 				continue
@@ -45,6 +57,15 @@ func (r *joinRun) goSpec() map[string]Obj {
 		}
 	}
 	return res
+}
+
+func mergeSortedSpec(found []Obj) *Obj {
+	var vals []string
+	for _, o := range found {
+		vals = append(vals, o.Val)
+	}
+	sort.Strings(vals)
+	return &Obj{NS: found[0].NS, Name: found[0].Name, Val: strings.Join(vals, "+")}
 }
 
 func tokensOf(m map[string]Obj, ns string) map[string]string {
@@ -125,6 +146,22 @@ func oracleJoinCase(t *testing.T, lines [][]string) string {
 					}
 					if d := diffMaps(real, tokensOf(spec, l[1]), notU); d != "" || dup {
 						fail("lookup", where+":"+d)
+					}
+				}
+			case "vlookup":
+				if len(l) == 2 {
+					real := map[string]string{}
+					for _, o := range r.vidx.Lookup(l[1]) {
+						real[o.ResourceName()] = o.Token()
+					}
+					want := map[string]string{}
+					for k, o := range spec {
+						if contains(strings.Split(o.Val, "+"), l[1]) {
+							want[k] = o.Token()
+						}
+					}
+					if d := diffMaps(real, want, notU); d != "" {
+						fail("lookup", where+":v:"+d)
 					}
 				}
 			case "stream", "ustream":
